@@ -59,8 +59,31 @@ def _edit_chain_ops(script, v):
 
 
 def p_scan_regen_vector_request(script, v):
-    # Scan.edit_regenerate returns VectorRequest, which Scan.edit cannot apply
-    return "VectorRequest" in v["detail"] and _has(script, "scan", "accumulate", "reduce", "iterate", "iterate_final")
+    # Scan.edit_regenerate returns VectorRequest, which Scan.edit cannot apply;
+    # the undone edit must be a Regenerate (directly, or as the sub-request of an
+    # IndexRequest / StaticRequest) on a program that contains a scan-like node
+    if not _has(script, "scan", "accumulate", "reduce", "iterate", "iterate_final"):
+        return False
+    steps = script["steps"]
+    by_out = {s["out"]: s for s in steps if "out" in s}
+    st = _step(script, v)
+    tgt = by_out.get(st.get("of"))
+    for _ in range(16):  # undo of undo ... of a regenerate
+        if tgt is None:
+            return False
+        if tgt.get("op") == "undo":
+            tgt = by_out.get(tgt.get("of"))
+            continue
+        break
+    if tgt is None:
+        return False
+    if tgt.get("op") == "regenerate":
+        return True
+    if tgt.get("op") == "index_edit" and tgt.get("sub") == "regenerate":
+        return True
+    if tgt.get("op") == "static_edit" and any(e.get("kind") == "regenerate" for e in tgt.get("subs", [])):
+        return True
+    return False
 
 
 def p_mask_concrete_false_assess(script, v):
@@ -94,10 +117,13 @@ def p_switch_bwd_request(script, v):
 
 
 def p_static_site_empty_callee(script, v):
-    # a static call site whose callee made no choices (concretely masked-off
-    # mask, zero-length map, function without choices) has an empty sub-map in
-    # the trace's own choice map, and the static assess handler raises
-    # MissingAddress for it
+    # A call that made no choices - a concretely masked-off mask, a zero-length
+    # map, a function without choices - leaves an empty (sub-)map in the trace's
+    # own choice map.  As a static call site the assess handler raises
+    # MissingAddress for it; as a mask whose concrete False flag became an array
+    # at a pytree boundary (vmap slicing, jit identity) MaskCombinator.assess can
+    # no longer tell it is masked off and assesses the inner function against
+    # the empty map.
     from sim.ref import inner_nodes, universe
     from sim.script import unwrap
 
@@ -110,11 +136,14 @@ def p_static_site_empty_callee(script, v):
         return not universe(c)
 
     def walk(node):
+        if node["k"] == "mask":
+            return True
         if node["k"] == "static" and any(may_be_empty(s["callee"]) for s in node["stmts"]):
             return True
         return any(walk(c) for c in inner_nodes(node))
 
-    return "MissingAddress" in v["detail"] and walk(script["programs"][0])
+    d = v["detail"]
+    return ("MissingAddress" in d or "NoneType" in d) and walk(script["programs"][0])
 
 
 def p_index_through_scalar_siblings(script, v):
